@@ -97,6 +97,7 @@ func installHook(sim *Sim, emit func(trace.M)) {
 		}
 		m["topo"] = topo
 		emit(m)
+		sim.afterSched(ev.Kind)
 	}
 }
 
